@@ -272,7 +272,7 @@ def main():
                      "kind_free_text": "verification-condition generator for Python: symbolic interpreter over the real ASTs of /repo (re-parsed every run), "
                                        "sidecar contracts (pre/post, loop invariants, frames, ghost state), z3 back end, native replay of counter-models"}],
         "checks": checks,
-        "notes": "Exit codes: 0 held / 1 VIOLATION (refuted obligation; replayed natively where a concrete input exists) / 2 undecided (solver unknown, construct out of reach) / 3 checker error or vacuity guard.",
+        "notes": "Exit codes: 0 held / 1 VIOLATION (refuted obligation; replayed natively where a concrete input exists) / 0 with a NOTE when a task is out of the deductive engine's reach on the tree under test and the bounded stand-in decides (never counted as proved) / 0 with KNOWN-FINDING lines for listed findings / 2 undecided (solver unknown and no native reproduction) / 3 checker error or vacuity guard.",
         "not_applicable": [{"property_id": p, "reason": NA.get(p, NOT_YET)} for p in ALL if p not in CLAIMED],
     }
     json.dump(m, open("/verif/MANIFEST.json", "w"), indent=1)
